@@ -60,7 +60,7 @@ UExt(R, tilt) == Div(One, Add(Add(R, RsiOf(tilt)), Rse))
 \* ---- the reference building ---------------------------------------------------
 AreaP == Qt(12, 1)            \* the element under test (partition, slab or wall of 4 x 3)
 AreaE == Qt(9, 1)             \* exterior wall of each space
-Height == Qt(3, 1)
+Height == Qt(25, 10)          \* storey height 2.5 m (so that no side wall has the area and perimeter of the 4 x 3 slab)
 \* net height of a space whose ceiling is the element under test: storey - thickness of the element
 HNet(c, whichSpace) ==
   LET covered == (whichSpace = "this" /\ c.tilt = "TOP") \/ (whichSpace = "next" /\ c.tilt = "BOTTOM") IN
@@ -116,10 +116,10 @@ Verdict(c) ==
              \* slab of construction REF in the wall and roof cases, the stack under test in the slab case
              Rslab == IF c.tilt = "BOTTOM" THEN R ELSE RRef
              dt == Add(Qt(3, 10), Mul(LambdaGnd, Add(Add(RsiDown, Rslab), Rse)))
-             \* exposed perimeter: the floor perimeter 14 times the exposed share of the 42 m2 of side walls: south and north
-             \* (ground, 24) and east (outside air, 9) always; west (9) when it separates this conditioned space from a
+             \* exposed perimeter: the floor perimeter 14 times the exposed share of the 35 m2 of side walls: south and north
+             \* (ground, 20) and east (outside air, 7.5) always; west (7.5) when it separates this conditioned space from a
              \* space that is not conditioned (an adiabatic side, or a partition seen from a non-conditioned space, is not exposed)
-             \* 14 * 33 / 42 = 11 or 14 * 42 / 42 = 14 ; B' = 12 / (P / 2)
+             \* 14 * 27.5 / 35 = 11 or 14 * 35 / 35 = 14 ; B' = 12 / (P / 2)
              P == IF c.next # "none" /\ Cond(c.this) /\ ~Cond(c.next) THEN Qt(14, 1) ELSE Qt(11, 1)
              B == Div(AreaP, Div(P, Qt(2, 1)))
              dprime == IF c.perim THEN Mul(Qt(15, 10), Sub(LambdaGnd, LambdaIns)) ELSE Qt(0, 1)
